@@ -274,6 +274,11 @@ func CheckC16(c *Ctx) (*Outcome, error) {
 		return nil, err
 	}
 	found = append(found, f3...)
+	f4, err := c.RunCases(1, func(int) ([]*History, error) { return []*History{F9Probe()}, nil }, JudgeC16, note)
+	if err != nil {
+		return nil, err
+	}
+	found = append(found, f4...)
 	out, err := c.finish("C16", "exploration", found, JudgeC16, func(c *Ctx, f Found) string { return f.V.Class })
 	if err != nil {
 		return nil, err
